@@ -11,6 +11,8 @@ def CFG(R, FZ):
         "C06": dict(pkg="c06", level="exploration", runs=[R(shards=(8, 16))]),
         "C10": dict(pkg="c10", level="exploration", runs=[R(shards=(8, 16), timeout=(300, 3000)), FZ("FuzzValue", seconds=45), FZ("FuzzPackage", seconds=90), FZ("FuzzChannel", seconds=90)]),
         "C07": dict(pkg="c07", level="exploration", runs=[R(shards=(8, 16))]),
+        "C08": dict(pkg="c08", level="exploration", runs=[R(shards=(8, 16))]),
+        "C09": dict(pkg="c09", level="exploration", runs=[R(shards=(8, 16))]),
         "C11": dict(pkg="c11", level="exploration", runs=[R(shards=(8, 16))]),
         "C14": dict(pkg="c14", level="fault_enumeration", runs=[R(shards=(8, 16))]),
         "C15": dict(pkg="c15", level="exploration", runs=[R(shards=(4, 16))]),
